@@ -15,7 +15,7 @@ import (
 func init() {
 	register("C06", &propDef{
 		Title: "Source addresses print to strings that parse back to the same address",
-		Rules: []func(*Checker){ruleC06Ctor, ruleC06Sanitiser, ruleC06URLPath, ruleC06SubRaw, ruleC06FinalPattern, ruleC06Host, ruleC06CanonURL, aliasRuleFiltered(ruleC07Query, "C07.query", "C06.query", 1, func(o Oblig) bool { return strings.Contains(o.Key, "archive value normalised") }), ruleC06Manifest, ruleC06Print, ruleAddrErrors("C06.errors"), ruleNameAgreement("C06.names", "sourceaddrs"), ruleURLFields("C06.urlfields"), ruleLiteralAgreement("C06.fields", "sourceaddrs", nil), ruleC06QueryCut},
+		Rules: []func(*Checker){ruleC06Ctor, ruleC06Sanitiser, ruleC06URLPath, ruleC06SubRaw, ruleC06FinalPattern, ruleC06Host, ruleC06CanonURL, aliasRuleFiltered(ruleC07Query, "C07.query", "C06.query", 1, func(o Oblig) bool { return strings.Contains(o.Key, "archive value normalised") }), ruleC06Manifest, ruleC06Print, ruleAddrErrors("C06.errors"), ruleNameAgreement("C06.names", "sourceaddrs"), ruleURLFields("C06.urlfields"), ruleLiteralAgreement("C06.fields", "sourceaddrs", nil), ruleC06QueryCut, ruleURLHostUntouched("C06.host")},
 		NotDecided: []string{
 			"the round trip itself: URL escaping, fragments, case folding, registry-address normalisation are facts about string contents",
 			"idempotence of printing for every accepted spelling",
@@ -23,7 +23,7 @@ func init() {
 	})
 	register("C07", &propDef{
 		Title: "Accepted remote addresses always satisfy the documented transport policy",
-		Rules: []func(*Checker){ruleC07Routes, ruleC07Schemes, ruleC07Query, ruleC07ArchiveSuffix, ruleC06SubpathOnly("C07.subpath"), ruleAddrErrors("C07.errors"), ruleNameAgreement("C07.names", "sourceaddrs"), ruleURLFields("C07.urlfields"),
+		Rules: []func(*Checker){ruleC07Routes, ruleC07Schemes, ruleC07Query, ruleC07ArchiveSuffix, ruleTypePrefixAnchored("C07.typeprefix"), ruleC06SubpathOnly("C07.subpath"), ruleAddrErrors("C07.errors"), ruleNameAgreement("C07.names", "sourceaddrs"), ruleURLFields("C07.urlfields"),
 			aliasRuleFiltered(ruleC06FinalPattern, "C06.finalpattern", "C07.finalclass", 1, func(o Oblig) bool { return strings.Contains(o.Key, "parser's groups") })},
 		NotDecided: []string{
 			"'every address that follows the documented grammar is accepted' (needs the grammar)",
